@@ -142,7 +142,7 @@ func (f *fx) get(st *State, key string) Term {
 	}
 	srt := keySort(f.e, key)
 	ep := 0
-	if isHeapKey(key) {
+	if isHeapKey(key) && !f.immutableKey(key) {
 		ep = stateEpoch[st]
 	}
 	ck := fmt.Sprintf("%d|%s", ep, key)
@@ -150,7 +150,7 @@ func (f *fx) get(st *State, key string) Term {
 	if !ok {
 		if strings.HasPrefix(key, "L:") {
 			t = f.e.sorts.zero(srt)
-		} else if strings.HasPrefix(key, "E:defer") {
+		} else if strings.HasPrefix(key, "E:defer") || key == "E:recovered" {
 			t = tFalse
 		} else if strings.HasPrefix(key, "E:ncalls:") || strings.HasPrefix(key, "E:visits:") {
 			t = intLit(0)
@@ -164,6 +164,19 @@ func (f *fx) get(st *State, key string) Term {
 	}
 	st.m[key] = t
 	return t
+}
+
+// immutableKey: package variables declared immutable have one value for the whole unit.
+func (f *fx) immutableKey(key string) bool {
+	if !strings.HasPrefix(key, "G:") {
+		return false
+	}
+	for n := range f.e.specs.Immutable {
+		if key == "G:"+mangle("jet."+n) || (strings.Contains(n, ".") && key == "G:"+mangle(n)) {
+			return true
+		}
+	}
+	return false
 }
 
 // refBound states that every reference stored in a freshly introduced heap array is already allocated.
@@ -551,6 +564,9 @@ func (f *fx) loadBound(st *State, l *Loc, v Term) {
 	if !f.e.keyIsRef[key] {
 		return
 	}
+	if strings.Contains(l.Ref.S, "$") {
+		return // the reference mentions a bound variable of a spec quantifier: no side facts
+	}
 	arr := f.get(st, key)
 	base := baseArray(arr.S)
 	if b, ok := f.top.arrBound[base]; ok {
@@ -642,6 +658,10 @@ func (f *fx) assumeTyped(st *State, v Term, t types.Type) {
 		}
 	case *types.Interface:
 		f.sc.assert(T("Bool", "(and (<= 0 (itag %s)) (=> (= (itag %s) 0) (= (ival %s) 0)))", v.S, v.S, v.S))
+		if u.NumMethods() > 0 {
+			// a non-nil value of a non-empty interface type holds a value whose type implements the interface
+			f.sc.assert(T("Bool", "(or (= (itag %s) 0) (implements (itag %s) %d))", v.S, v.S, f.e.sorts.ifaceID(t)))
+		}
 	}
 }
 
